@@ -6,12 +6,12 @@ use crate::class::Class;
 use crate::rr::{Rdata, RdataSetOwned, Type};
 
 /// Counterexample finder for D10: `Rdata::equals` must be symmetric for a
-/// single-name type (NS), here for any two RDATA of at most 4 octets.
+/// single-name type (NS), here for any two RDATA of at most 2 octets.
 /// (Fails on the unfixed tree with e.g. a = [0], b = [0, x].)
 #[kani::proof]
-#[kani::unwind(6)]
+#[kani::unwind(4)]
 pub(crate) fn cex_equals_ns_symmetric() {
-    const N: usize = 4;
+    const N: usize = 2;
     let a: [u8; N] = kani::any();
     let b: [u8; N] = kani::any();
     let la: usize = kani::any();
@@ -22,30 +22,21 @@ pub(crate) fn cex_equals_ns_symmetric() {
     assert_eq!(ra.equals(rb, Class::IN, Type::NS), rb.equals(ra, Class::IN, Type::NS));
 }
 
-/// `RdataSetOwned::from_iter` (not extracted for Verus: generic IntoIterator +
-/// Option::get_or_insert) for a type compared octet-wise (A): three RDATA of at
-/// most 2 octets each; the set iterates the first member of each equality class
-/// in insertion order and nothing else.  Bound: 3 members, <= 2 octets each.
+/// `RdataSetOwned::from_iter` on the GENERIC original (Verus proves the body
+/// for `I = Vec<&Rdata>`; here `I = [&Rdata; 2]`) for a type compared octet-wise
+/// (A): the set iterates the first member of each equality class in insertion
+/// order and nothing else.  Bound: 2 members of exactly 1 octet each.
 #[kani::proof]
-#[kani::unwind(8)]
+#[kani::unwind(4)]
 pub(crate) fn bnd_from_iter_bitwise_first_of_class() {
-    let d: [[u8; 2]; 3] = kani::any();
-    let l: [usize; 3] = kani::any();
-    kani::assume(l[0] <= 2 && l[1] <= 2 && l[2] <= 2);
-    let r0: &Rdata = (&d[0][..l[0]]).try_into().unwrap();
-    let r1: &Rdata = (&d[1][..l[1]]).try_into().unwrap();
-    let r2: &Rdata = (&d[2][..l[2]]).try_into().unwrap();
-    let set = RdataSetOwned::from_iter(Class::IN, Type::A, [r0, r1, r2]).unwrap();
+    let d: [[u8; 1]; 2] = kani::any();
+    let r0: &Rdata = (&d[0][..]).try_into().unwrap();
+    let r1: &Rdata = (&d[1][..]).try_into().unwrap();
+    let set = RdataSetOwned::from_iter(Class::IN, Type::A, [r0, r1]).unwrap();
     let mut it = set.iter();
-    // reference: keep x unless an earlier kept member has the same octets
-    assert!(it.next().unwrap().octets() == r0.octets());
-    let keep1 = r1.octets() != r0.octets();
-    if keep1 {
-        assert!(it.next().unwrap().octets() == r1.octets());
-    }
-    let keep2 = r2.octets() != r0.octets() && r2.octets() != r1.octets();
-    if keep2 {
-        assert!(it.next().unwrap().octets() == r2.octets());
+    assert!(it.next().unwrap().octets()[0] == d[0][0]);
+    if d[1][0] != d[0][0] {
+        assert!(it.next().unwrap().octets()[0] == d[1][0]);
     }
     assert!(it.next().is_none());
 }
